@@ -12,14 +12,14 @@ use std::time::Instant;
 use web_time::Instant;
 
 use cactus::Cactus;
-use cfgrammar::{Span, TIdx};
+use cfgrammar::TIdx;
 use lrtable::{Action, StIdx};
 use num_traits::{AsPrimitive, PrimInt, Unsigned};
 
 use super::{
     Lexeme, LexerTypes,
     dijkstra::dijkstra,
-    parser::{AStackType, ParseRepair, Parser, Recoverer},
+    parser::{AStackType, ParseRepair, Parser, Recoverer, SpanStack},
 };
 
 const PARSE_AT_LEAST: usize = 3; // N in Corchuelo et al.
@@ -153,7 +153,7 @@ where
         in_laidx: usize,
         in_pstack: &mut Vec<StIdx<StorageT>>,
         astack: &mut Vec<AStackType<LexerTypesT::LexemeT, ActionT>>,
-        spans: &mut Vec<Span>,
+        spans: &mut SpanStack,
     ) -> (usize, Vec<Vec<ParseRepair<LexerTypesT::LexemeT, StorageT>>>) {
         // This function implements a minor variant of the algorithm from "Repairing syntax errors
         // in LR parsers" by Rafael Corchuelo, Jose A. Perez, Antonio Ruiz, and Miguel Toro.
@@ -491,7 +491,7 @@ fn apply_repairs<
     mut laidx: usize,
     pstack: &mut Vec<StIdx<StorageT>>,
     astack: &mut Option<&mut Vec<AStackType<LexerTypesT::LexemeT, ActionT>>>,
-    spans: &mut Option<&mut Vec<Span>>,
+    spans: &mut Option<&mut SpanStack>,
     repairs: &[ParseRepair<LexerTypesT::LexemeT, StorageT>],
 ) -> usize
 where
